@@ -17,8 +17,15 @@ PARTS = ["vf.props.c13_occ", "vf.props.c13_cron"]
 
 
 def _parts() -> list:
+    import os
+
     out = []
     for name in PARTS:
+        # a part is registered once its marker file exists (set when it has been integrated and triaged);
+        # VF_C13_ALL=1 runs unregistered parts too (used while a part is being built)
+        marker = os.path.join(os.path.dirname(__file__), name.rsplit(".", 1)[1] + ".READY")
+        if not os.path.exists(marker) and not os.environ.get("VF_C13_ALL"):
+            continue
         try:
             out.append(importlib.import_module(name))
         except ModuleNotFoundError as e:
